@@ -211,7 +211,8 @@ def run_property(pid, spec, tier, seed, t0):
         sess = f["session"]
         try:
             if len(sess) > 2:
-                sess = C.shrink_session(f["kind"], sess, lambda s: C.fails_again(f["kind"], s))
+                want = C.verdict_class(f["verdict"])
+                sess = C.shrink_session(f["kind"], sess, lambda s: C.fails_again(f["kind"], s, want, f["impl"]))
         except Exception as e:  # shrinking is best effort
             notes.append("shrink failed: %r" % e)
         replay = C.write_replay(pid, seed, {"property": pid, "kind": f["kind"], "session": sess,
